@@ -217,7 +217,7 @@ def _real(sx, component, seed):
             sx.note(f"subprocess failed: {err}")
             sx.prove(False, 'component-runs-in-a-fresh-process')
             return
-        same = all(o['out'] == outs[0]['out'] for o in outs)
+        same = all(o['out'] == outs[0]['out'] and o.get('out2', o['out']) == o['out'] for o in outs)
         undisturbed = all(all(o['undisturbed']) for o in outs)
         if not (same and undisturbed) or sd == seeds[-1]:
             if sd != seed:
